@@ -227,11 +227,19 @@ def parse_dint(ans):
     return ("other", ans)
 
 
+def _viol(chk, cat, kind, detail, **kw):
+    """At most 3 replays per category of symptom; the rest is counted."""
+    seen = chk.extra.setdefault("int_violations_by_category", {})
+    seen[cat] = seen.get(cat, 0) + 1
+    if seen[cat] <= 3:
+        chk.violation(kind, detail, **kw)
+
+
 def run_int(chk, tier, model_ok, binary, seed_tag="C06-int"):
     """Returns nothing; reports through chk."""
     r = common.rng(seed_tag)
-    n_rand = 40 if tier == "quick" else 1500
-    n_mal = 150 if tier == "quick" else 6000
+    n_rand = 25 if tier == "quick" else 1500
+    n_mal = 100 if tier == "quick" else 6000
     n_tok = 200 if tier == "quick" else 5000
     ops, meta = [], []
     for ty in TYPES:
@@ -258,17 +266,33 @@ def run_int(chk, tier, model_ok, binary, seed_tag="C06-int"):
             continue
         ops.append("TOK " + hexs(t))
         meta.append(("T", t))
-    res = cppbuild.run(binary, "\n".join(ops) + "\n", timeout=900)
-    if res.kind != "ok":
-        # a sanitizer report / tripped CHECK inside the integer codec on some input: bisect
-        bad = _first_failing(binary, ops)
-        chk.violation("input", {"op": bad, "observed": "%s: %s" % (res.kind, res.err[-1500:]),
-                                "expected": "no undefined behaviour / failed CHECK in the text codec",
-                                "part": "INTCODEC"})
+    # one process per integer type (and one for the token texts): a sanitizer report in one
+    # instantiation does not hide the others
+    groups = {}
+    for i, m in enumerate(meta):
+        groups.setdefault(m[1] if m[0] in ("W", "D") else "tok", []).append(i)
+    keys = sorted(groups)
+    results = cppbuild.run_many([(binary, "\n".join(ops[i] for i in groups[k]) + "\n") for k in keys], workers=4)
+    real = [None] * len(ops)
+    for k, res in zip(keys, results):
+        idx = groups[k]
+        if res.kind != "ok":
+            bad = _first_failing(binary, [ops[i] for i in idx])
+            chk.violation("input", {"op": bad, "observed": "%s: %s" % (res.kind, res.err[-1500:]),
+                                    "expected": "no undefined behaviour / failed CHECK in the text codec",
+                                    "part": "INTCODEC"})
+            continue
+        out = res.out.split("\n")[:-1]
+        if len(out) != len(idx):
+            raise common.InfraError("intcodec driver answered %d lines for %d ops" % (len(out), len(idx)))
+        for i, a in zip(idx, out):
+            real[i] = a
+    keep = [i for i in range(len(ops)) if real[i] is not None]
+    ops = [ops[i] for i in keep]
+    meta = [meta[i] for i in keep]
+    real = [real[i] for i in keep]
+    if not ops:
         return
-    real = res.out.split("\n")[:-1]
-    if len(real) != len(ops):
-        raise common.InfraError("intcodec driver answered %d lines for %d ops" % (len(real), len(ops)))
     model = common.Model("model_c06").ask(ops) if model_ok else [None] * len(ops)
     dist = chk.extra.setdefault("int_distribution", {})
     leniency = chk.extra.setdefault("decode_leniency_observed", {})
@@ -293,13 +317,13 @@ def run_int(chk, tier, model_ok, binary, seed_tag="C06-int"):
                 elif not is_canonical(text):
                     bad = "text %r is not in a documented number format" % text
             if bad:
-                chk.violation("input", {"op": op, "observed": a, "expected": bad, "model": b, "part": "INTCODEC"})
+                _viol(chk, "write:" + bad.split(" ")[0], "input", {"op": op, "observed": a, "expected": bad, "model": b, "part": "INTCODEC"})
             else:
                 ops2.append("DINT %s %s" % (ty, hexs(text)))
                 meta2.append((ty, v, base, g, text))
                 chk.nontrivial("w:%s:%d:%d:%d" % (ty, v, base, g))
                 if b is not None and a != b:
-                    chk.violation("correspondence", {
+                    _viol(chk, "corr-write", "correspondence", {
                         "op": op, "observed": a, "model": b,
                         "expected": "real output denotes the value written; only the model differs",
                         "theorem_or_correspondence": "model_c06 WINT vs WriteIntegerToTextStream"},
@@ -313,10 +337,11 @@ def run_int(chk, tier, model_ok, binary, seed_tag="C06-int"):
                 leniency[len_tag] = leniency.get(len_tag, 0) + 1
                 leniency.setdefault("examples", {}).setdefault(len_tag, "%s %r -> %s" % (ty, t, a))
             if problem:
-                chk.violation("input", {"op": op, "text": t, "type": ty, "observed": a, "expected": problem,
-                                        "model": b, "part": "INTCODEC"})
+                _viol(chk, "decode:" + ty + ":" + problem.split(" ")[0], "input",
+                      {"op": op, "text": t, "type": ty, "observed": a, "expected": problem,
+                       "model": b, "part": "INTCODEC"})
             elif b is not None and a != b:
-                chk.violation("correspondence", {
+                _viol(chk, "corr-decode", "correspondence", {
                     "op": op, "text": t, "observed": a, "model": b,
                     "expected": "real behaviour is allowed by the statement; only the model differs",
                     "theorem_or_correspondence": "model_c06 DINT vs DecodeInteger"}, found_input=False)
@@ -326,10 +351,10 @@ def run_int(chk, tier, model_ok, binary, seed_tag="C06-int"):
             dist["tokenize"] = dist.get("tokenize", 0) + 1
             want = "toks " + ",".join(hexs(x) for x in ref_tokens(t))
             if a != want:
-                chk.violation("input", {"op": op, "text": t, "observed": a, "expected": want, "model": b,
-                                        "part": "TOK"})
+                _viol(chk, "tok", "input", {"op": op, "text": t, "observed": a, "expected": want, "model": b,
+                                            "part": "TOK"})
             elif b is not None and a != b:
-                chk.violation("correspondence", {
+                _viol(chk, "corr-tok", "correspondence", {
                     "op": op, "text": t, "observed": a, "model": b,
                     "expected": "real tokenization matches the documented rules; only the model differs",
                     "theorem_or_correspondence": "model_c06 TOK vs ReadToken"}, found_input=False)
@@ -349,13 +374,13 @@ def run_int(chk, tier, model_ok, binary, seed_tag="C06-int"):
             chk.count()
             dist["readback"] = dist.get("readback", 0) + 1
             if a != "ok %d" % v:
-                chk.violation("input", {"op": op, "type": ty, "value": v, "base": base, "grouping": g,
+                _viol(chk, "readback:" + ty, "input", {"op": op, "type": ty, "value": v, "base": base, "grouping": g,
                                         "text": text, "observed": a, "expected": "ok %d" % v, "model": b,
                                         "part": "INTCODEC",
                                         "note": "decode(encode(x)) != x on the real runtime"})
             elif b is not None and a != b:
                 disagreements += 1
-                chk.violation("correspondence", {
+                _viol(chk, "corr-readback", "correspondence", {
                     "op": op, "observed": a, "model": b, "expected": "real round trip holds; the model differs",
                     "theorem_or_correspondence": "model_c06 DINT vs DecodeInteger"}, found_input=False)
     chk.extra["int_traces_validated_against_impl"] = (len(ops) + len(ops2)) if model_ok else 0
